@@ -26,7 +26,7 @@ ASSUMPTIONS = [
     "tables carry a weight column (fix always writes one; _do_segmentation indexes it unconditionally); gene names contain no comma",
     "null-coverage bins are generated at log2 -20 / depth 0 and all other bins above log2 -10, so 'survives the low-coverage filter' does not depend on the exact cut-off",
     "'all input bins a segment spans' = input bins contained in it (segment boundaries are bin boundaries); depth is judged when the spanned weight is > 0",
-    "HMM methods are driven with at least one autosome holding >= 3 surviving bins (the model is fitted on autosomes); cbs/flasso need R, which is not installed: their clauses are not observed",
+    "in the main workload HMM methods are driven with at least one autosome holding >= 3 surviving bins (the model is fitted on autosomes); the 'degenerate' workload drives one-bin and constant tables through every method; cbs/flasso need R, which is not installed: their clauses are not observed",
     "calls with a variants argument (allele-frequency re-segmentation) are out of domain: the statement is about bins",
 ]
 BUDGET_S = {"quick": 240, "thorough": 1500}
@@ -252,7 +252,33 @@ def case_cli(run, i):
     run.end_case(fp=rt.fingerprint([cols, argv[3:]], 12), nontrivial=True)
 
 
-WORKLOADS = {"table": (_n, case_table), "cli": (_n_cli, case_cli)}
+# ---- degenerate tables: one bin, or a constant signal
+
+def _n_deg(tier):
+    return 30 if tier == "quick" else 120
+
+
+def case_degenerate(run, i):
+    import cnvlib.segmentation as S
+    rng = run.rng("degenerate", i)
+    nb = [1, 1, 2, 5, 40][i % 5]
+    nchr = [1, 2][(i // 5) % 2]
+    const = float(rng.choice([0.0, 0.3, -1.0]))
+    cols = {k: [] for k in ("chromosome", "start", "end", "gene", "log2", "depth", "weight")}
+    for c in ["chr1", "chr2"][:nchr]:
+        for k in range(nb):
+            cols["chromosome"].append(c); cols["start"].append(1000 * k); cols["end"].append(1000 * k + 800); cols["gene"].append("G")
+            cols["log2"].append(const); cols["depth"].append(50.0); cols["weight"].append(0.8)
+    method = ("none", "haar", "hmm", "hmm-tumor", "hmm-germline")[(i // 10) % 5] if i >= 10 else ("hmm", "hmm-germline", "hmm-tumor", "none", "haar")[i % 5]
+    run.begin_case("degenerate", i, cls=f"degenerate:{method}:{nb}bins", method=method)
+    try:
+        S.do_segmentation(make_cna(cols, meta={"sample_id": "S"}), method, skip_outliers=0)
+    except Exception:
+        pass
+    run.end_case(fp=rt.fingerprint([nb, nchr, const, method], 12), nontrivial=False)
+
+
+WORKLOADS = {"table": (_n, case_table), "cli": (_n_cli, case_cli), "degenerate": (_n_deg, case_degenerate)}
 _Q = {
     "segmentation._do_segmentation[arm]|held": 400,
     "segmentation.do_segmentation|held": 250,
